@@ -20,7 +20,7 @@ ASSUMPTIONS = ["CPython zoneinfo + installed tz data", "amounts limited to |tota
 amount = st.one_of(
     st.fixed_dictionaries({}, optional={
         "hours": st.integers(-60000, 60000), "minutes": st.integers(-4 * 10**6, 4 * 10**6),
-        "seconds": st.integers(-3 * 10**8, 3 * 10**8), "microseconds": st.integers(-2 * 10**14, 2 * 10**14)}),
+        "seconds": S.uni(-3 * 10**8, 3 * 10**8), "microseconds": S.uni(-2 * 10**14, 2 * 10**14)}),
     st.fixed_dictionaries({}, optional={
         "hours": st.integers(-50, 50), "minutes": st.integers(-200, 200),
         "seconds": st.integers(-7300, 7300), "microseconds": st.integers(-2 * 10**6, 2 * 10**6)}),
@@ -124,7 +124,7 @@ class Naive(Sub):
     rule = "naive DateTime: plain wall-clock arithmetic; non-trivial: crosses a day boundary or has microseconds"
 
     def strategy(self, ctx):
-        return st.fixed_dictionaries({"w": st.integers(S.LO_U, S.HI_U), "amt": amount, "op": st.sampled_from(OPS),
+        return st.fixed_dictionaries({"w": S.uni(S.LO_U, S.HI_U), "amt": amount, "op": st.sampled_from(OPS),
                                       "fold": st.integers(0, 1)})
 
     def check(self, case, ctx):
